@@ -166,6 +166,42 @@ func c10dump(m interface{}) string {
 	return sb.String()
 }
 
+// c10extras: hex of every ExtraOpaqueData field of m in depth-first order (the
+// raw extension-tail cache; the only place where two values with equal typed
+// dumps can differ).
+func c10extras(v reflect.Value, out *[]string, depth int) {
+	if depth > 12 || !v.IsValid() {
+		return
+	}
+	if v.Type() == c10extraType {
+		b := make([]byte, v.Len())
+		for i := range b {
+			b[i] = byte(v.Index(i).Uint())
+		}
+		*out = append(*out, c10hx(b))
+		return
+	}
+	switch v.Kind() {
+	case reflect.Ptr, reflect.Interface:
+		if !v.IsNil() {
+			c10extras(v.Elem(), out, depth+1)
+		}
+	case reflect.Struct:
+		for i := 0; i < v.NumField(); i++ {
+			c10extras(v.Field(i), out, depth+1)
+		}
+	}
+}
+
+func c10extraList(m interface{}) string {
+	var out []string
+	c10extras(reflect.ValueOf(m), &out, 0)
+	if len(out) == 0 {
+		return "none"
+	}
+	return strings.Join(out, ",")
+}
+
 func c10dumpTyped(m interface{}) string {
 	var sb strings.Builder
 	c10canon(reflect.ValueOf(m), &sb, 0, true)
@@ -209,7 +245,7 @@ func c10chain(dec func([]byte) (interface{}, error), enc func(interface{}) ([]by
 		}
 		return fmt.Sprintf("err alloc=%d", alloc), nil
 	}
-	d1, t1 := c10dump(v1), c10dumpTyped(v1)
+	d1, t1, x1 := c10dump(v1), c10dumpTyped(v1), c10extraList(v1)
 	e1, err = enc(v1)
 	if err != nil {
 		return fmt.Sprintf("ok encerr alloc=%d", alloc), nil
@@ -230,7 +266,13 @@ func c10chain(dec func([]byte) (interface{}, error), enc func(interface{}) ([]by
 	if t1 == t2 {
 		fixt = 1
 	}
-	return fmt.Sprintf("ok enc=%s fixb=%d fixv=%d fixt=%d size=%d alloc=%d", c10hx(e1), fixb, fixv, fixt, len(e1), alloc), e1
+	xd := ""
+	if fixv == 0 {
+		// the raw extension tails of dec(in) and dec(enc(dec in)), for the
+		// monitor's classification of what was lost
+		xd = fmt.Sprintf(" xd1=%s xd2=%s", x1, c10extraList(v2))
+	}
+	return fmt.Sprintf("ok enc=%s fixb=%d fixv=%d fixt=%d size=%d alloc=%d%s", c10hx(e1), fixb, fixv, fixt, len(e1), alloc, xd), e1
 }
 
 func c10decMsg(b []byte) (interface{}, error) {
